@@ -18,6 +18,7 @@ import os
 import re
 import string
 import traceback
+import warnings
 
 from . import core, impl, values
 from .core import cZ, clist, copt, cbool, cstr
@@ -31,6 +32,9 @@ from beanquery.query_execute import execute_print  # noqa: E402
 from beancount import loader  # noqa: E402
 from beancount.core import account_types, data, getters, inventory, position as bposition  # noqa: E402
 from beancount.parser import parser as bparser, booking, printer  # noqa: E402
+
+# random account patterns such as '[[' make `re` emit FutureWarning (nested set); irrelevant here
+warnings.filterwarnings('ignore', category=FutureWarning)
 
 D = decimal.Decimal
 TMP = os.environ.get('C14_TMP', '/tmp/C14')
@@ -893,7 +897,7 @@ def check_ledger_statements(args):
     return out
 
 
-def ledger_specs(rng, n, thorough):
+def ledger_specs(rng, n, thorough, idx=0):
     """statement specs for one ledger: a fixed core + random ones"""
     specs = []
     core_from = [None, 'year = 2020', 'OPEN ON 2020-01-01 CLOSE ON 2020-12-31 CLEAR', 'OPEN ON 2020-03-01 CLOSE']
@@ -904,7 +908,10 @@ def ledger_specs(rng, n, thorough):
         specs.append(('B', 'text', f, None, "account ~ 'Assets'"))
         specs.append(('B', 'text', f, 'year = 2020', "account ~ '^(Income|Expenses)'"))
         specs.append(('J', 'text', None, f, None))
-    for p in PATTERNS:
+    for k, p in enumerate(PATTERNS):
+        # quick tier: every other pattern per ledger (all of them over two ledgers); quotes always
+        if not thorough and k % 2 != idx % 2 and not (p and ('"' in p or "'" in p)):
+            continue
         specs.append(('J', 'api' if (p is not None and quote_bql(p) is None) else 'text', p, rng.choice([None, 'units', 'cost']),
                       rng.choice([None, 'year = 2020'])))
     while len(specs) < n:
@@ -1303,8 +1310,8 @@ def run(tier, rng):
     # B / C: split each ledger's statements into chunks so that the pool is busy
     per_ledger = 200 if thorough else 56
     jobs = []
-    for path, text in ledgers:
-        specs = ledger_specs(rng, per_ledger, thorough)
+    for li, (path, text) in enumerate(ledgers):
+        specs = ledger_specs(rng, per_ledger, thorough, li)
         for k in range(0, len(specs), 14):
             jobs.append((path, specs[k:k + 14]))
     results = core.pmap(check_ledger_statements, jobs, chunksize=1)
